@@ -7,34 +7,25 @@ _TB = ("Trusted base: clang 14 front end (AST, CFG, constant evaluator), the pyt
 
 CLAIMS = {
     "C01": {
-        "text": "Decides clauses C01.a-d only: the encoder's lookup tables equal the architecture (exhaustive table oracle), "
-                "every instruction row's opcode agrees with a db/isa_x86.json form of that mnemonic, every encoding class is "
-                "dispatched, generated tables regenerate identically. Does not decide prefix/ModRM/immediate arithmetic over operand values.",
+        "text": "Decides the table/database/dispatch clauses only: every entry of the encoder's constant lookup tables equals an independent oracle (exhaustive, 1237 entries), every instruction row's main/alt opcode (prefix, map, byte, /digit) occurs in a db/isa_x86.json form of the mnemonic (1769 cells), every encoding class has a dispatch case, FIXUP_GPB constants, pc-relative displacements account for the trailing immediate, generated tables regenerate identically (thorough). Does not decide prefix/ModRM/immediate arithmetic over operand values.",
         "design_ref": "DESIGN.md section 3 / C01",
         "note": _TB,
         "technique": "constant-evaluated table dump (clang APValue) compared with independent oracle tables and the ISA database; switch-coverage lint",
     },
     "C02": {
-        "text": "Decides clauses C02.a-f only: every register id packed into an AArch64 instruction word is range-validated on all CFG "
-                "paths before the word is emitted; every encoding class is dispatched and every table row indexes inside the data array "
-                "its class reads; field positions, opcode constants and register-run checks agree with db/isa_aarch64.json. Does not decide "
-                "immediate/offset arithmetic.",
+        "text": "Decides: every register id packed into an AArch64 instruction word is range-validated on all CFG paths before the word is emitted (143 sites, validators derived from callee bodies); every encoding class is dispatched and every row indexes inside the data array its class reads; register field positions, stored opcode constants (806) and register-run checks agree with db/isa_aarch64.json. Does not decide immediate/offset arithmetic.",
         "design_ref": "DESIGN.md section 3 / C02",
         "note": _TB,
         "technique": "must/may forward dataflow over clang CFG (validate-before-emit), switch coverage, table-vs-database agreement",
     },
     "C03": {
-        "text": "Decides bookkeeping/ordering clauses C03.a-f: label ids are validated before label entries are dereferenced, the result of "
-                "every patch is acted upon, the unresolved counter is updated in inverse pairs, every placeholder emission creates a fixup or "
-                "relocation, OffsetFormat literals satisfy the encoder's preconditions. Does not decide displacement values.",
+        "text": "Decides bookkeeping/ordering clauses: label ids validated on the taken edge before label entries are dereferenced; the unresolved counter is written only in its inverse-pair forms and subtracted on every exit that ran the fixup iterator; one iterator advance per iteration and release only after a successful patch; survivor splice; OffsetFormat literals satisfy the encoder's preconditions; pc-relative addends account for trailing immediates. Does not decide displacement values.",
         "design_ref": "DESIGN.md section 3 / C03",
         "note": _TB,
         "technique": "dominance / must-pass-through dataflow on CFG, inverse-pair structural rule, constant-argument checks",
     },
     "C04": {
-        "text": "Decides clauses C04.a-d: relocation dispatch covers RelocType and defaults to an error, relocation entries are completely "
-                "initialised on success paths, patches are bounded by the range test, the .addrtab rewrite recognises exactly the opcodes the "
-                "assembler emits. Does not decide relocation arithmetic.",
+        "text": "Decides: RelocType/expression dispatch is complete and defaults to an error; every buffer write of relocate_to_base is dominated by its range/null tests; the .addrtab rewrite recognises exactly call/jmp rel32 and replaces them with FF /2, FF /4 (also against the ISA database); relocation entries are completely initialised with section ids of the right provenance; pc-relative displacements account for trailing immediates. Does not decide relocation arithmetic.",
         "design_ref": "DESIGN.md section 3 / C04",
         "note": _TB,
         "technique": "switch coverage, must-assign dataflow after new_reloc_entry, dominance of bounds tests, constant agreement with tables",
@@ -48,8 +39,7 @@ CLAIMS = {
         "technique": "AST extraction of constant setter arguments per (arch branch, convention case) compared with an ABI oracle table",
     },
     "C08": {
-        "text": "Decides capture/replay coverage clauses C08.a-d: every node-creating Builder override is replayed by serialize_to, the "
-                "one-shot instruction state and all operands round-trip through the node, list editing keeps both link directions. Does not decide byte identity.",
+        "text": "Decides capture/replay coverage: every node-creating Builder override is replayed by serialize_to and every node kind dispatched; options/extra register/comment are restored from the node before _emit, operands passed positionally and operands 3..5 refreshed per node; _emit stores everything in the node; the five list-editing functions agree on links, list ends, cursor and dirty flag. Does not decide byte identity or the argument round trip of data nodes.",
         "design_ref": "DESIGN.md section 3 / C08",
         "note": _TB,
         "technique": "call-graph coverage, argument provenance tracing, structural pairing of link assignments",
@@ -78,9 +68,7 @@ CLAIMS = {
         "technique": "lock-held must-analysis over CFG + call graph; LLVM IR writable-global audit; const_cast lint",
     },
     "C12": {
-        "text": "Decides table/database agreement clauses C12.a-c: RW/flag/feature tables regenerate byte-identically from db/, rows of instructions "
-                "whose database forms contain a register run carry the consecutive flag / lead count, register-or-memory records have matching memory forms. "
-                "Does not decide what the CPU does.",
+        "text": "Decides table/database agreement: RW/flag/feature/rm tables regenerate byte-identically from db/; AArch64 mnemonics with register-run forms carry the consecutive flag (known finding: tbl/tbx); x86 forms with relative register operands report the run's lead count and follower flags. Does not decide what the CPU does nor register-or-memory agreement.",
         "design_ref": "DESIGN.md section 3 / C12",
         "note": _TB + " db/*.js readers and tools/tablegen*.js are run under node as the repository's own generator.",
         "technique": "generated-table regeneration diff; table-vs-database agreement",
@@ -94,23 +82,19 @@ CLAIMS = {
         "technique": "regeneration diff, exhaustive decode of dumped name tables, CFG dominance",
     },
     "C14": {
-        "text": "Decides guard/atomicity clauses C14.a-e: label ids validated before dereference, register ids validated before packing (a64), "
-                "emit functions commit nothing before the last input check and reset one-shot state on every exit, operand-indexed table subscripts "
-                "are in range, sibling entry points agree on null guards. Does not decide that every invalid operand kind is rejected.",
+        "text": "Decides guard/atomicity clauses: label ids validated before dereference; AArch64 register ids validated before packing; emit functions (x86, a64, Builder) reset one-shot state on every exit, commit bytes only on success, never reach an input-validation exit after a fixup/relocation/address-table commit; the shared failure exit resets state before the handler can throw. Does not decide that every invalid operand kind is rejected, nor operand-indexed table subscripts.",
         "design_ref": "DESIGN.md section 3 / C14",
         "note": _TB,
         "technique": "must-set / reachability dataflow on clang CFG, sibling-guard comparison, index-range vs table-length check",
     },
     "C15": {
-        "text": "Decides C15.a-f: allocation results are null-tested before use, no Error value is dropped outside the reviewed list, unchecked "
-                "appends are dominated by a successful reserve, partial failures roll back, no freed block stays linked. Does not decide leak freedom as a whole.",
+        "text": "Decides: no Error value is dropped outside a reviewed table (223 discards, type-resolved); allocation results are null-tested on the taken edge before use (67 sites); unchecked appends are dominated by a successful reserve on the same container; preconditions established by a helper are established on every path; acquire/release roll-back on every failing exit of six functions (path-sensitive). Does not decide leak freedom as a whole, commit-then-fail residue or retry equivalence.",
         "design_ref": "DESIGN.md section 3 / C15",
         "note": _TB,
         "technique": "null-tested must-analysis, discarded-result lint with frozen exception table, dominance, free-escape typestate",
     },
     "C16": {
-        "text": "Decides C16.a-d: every arena-backed container member is reset by the reset closure of its class, one-shot state is cleared and base "
-                "handlers are called on detach/reinit, section buffers are reset, no emit-path ordering by address. Does not decide byte equality of recycled vs fresh generation.",
+        "text": "Decides: every arena-backed container, pointer and field mutated after construction of CodeHolder, BaseEmitter, BaseAssembler, BaseBuilder, BaseCompiler, BaseRAPass and ConstPool is reset in the closure of each reset entry point, or exempt with a reason (126 obligations). Does not decide byte equality of recycled vs fresh generation nor address independence.",
         "design_ref": "DESIGN.md section 3 / C16",
         "note": _TB,
         "technique": "reset-closure coverage over class fields (call graph + field writes), must-call rule, pointer-compare lint",
